@@ -34,8 +34,18 @@ var symCounter int
 func newSymFn(p *Program, fn *ssa.Function, depth int) *symFn {
 	s := &symFn{p: p, a: getStateAn(p), fn: fn, params: map[ssa.Value]*Sym{}, memo: map[ssa.Value]*Sym{}, pcMemo: map[*ssa.BasicBlock]*Sym{},
 		depth: depth, headers: map[*ssa.BasicBlock]map[*ssa.BasicBlock]bool{}, inNext: map[*ssa.Phi]bool{}, busy: map[ssa.Value]bool{}}
-	symCounter++
-	s.prefix = fmt.Sprintf("e%d", symCounter)
+	// element variables are named after the function and the loop header block: stable across runs and unrelated edits
+	nm := fn.Name()
+	if fn.Parent() != nil {
+		nm = fn.Parent().Name() + "_" + strings.TrimPrefix(fn.Name(), fn.Parent().Name()+"$")
+	}
+	var sb strings.Builder
+	for _, r := range nm {
+		if (r >= 'a' && r <= 'z') || (r >= 'A' && r <= 'Z') || (r >= '0' && r <= '9') {
+			sb.WriteRune(r)
+		}
+	}
+	s.prefix = "v" + sb.String()
 	for i, prm := range fn.Params {
 		s.params[prm] = &Sym{Op: "param", Name: fmt.Sprintf("p%d", i), Kind: kindOf(prm.Type())}
 	}
@@ -671,36 +681,55 @@ func (s *symFn) structCell(al *ssa.Alloc, at ssa.Instruction) *Sym {
 		return sUnknown("local struct " + al.Name() + " assigned on some paths only")
 	}
 	set := map[int]*Sym{}
+	// stores grouped by field (every `x.F` expression has its own FieldAddr value)
+	byField := map[int][]*ssa.Store{}
 	for _, ref := range *al.Referrers() {
 		fa, ok := ref.(*ssa.FieldAddr)
 		if !ok {
 			continue
 		}
-		st, ok2 := s.dominatingStore(fa, at)
-		if !ok2 {
-			// stores that all come after `at` do not matter when the whole variable is re-assigned before `at` in
-			// the same iteration (a range copy)
-			after := baseStore != nil
-			for _, r2 := range *fa.Referrers() {
-				if st2, isSt := r2.(*ssa.Store); isSt && st2.Addr == ssa.Value(fa) && !instrDominates(at, st2) {
-					after = false
+		for _, r2 := range *fa.Referrers() {
+			if st, ok := r2.(*ssa.Store); ok && st.Addr == ssa.Value(fa) {
+				byField[fa.Field] = append(byField[fa.Field], st)
+			}
+		}
+	}
+	for field, stores := range byField {
+		var best *ssa.Store
+		for _, st := range stores {
+			if instrDominates(st, at) && (baseStore == nil || instrDominates(baseStore, st)) {
+				if best == nil || instrDominates(best, st) {
+					best = st
 				}
 			}
-			if after {
-				h1, _ := s.loopOf(baseStore.Block())
+		}
+		unknown := false
+		for _, st := range stores {
+			if st == best || (best != nil && instrDominates(st, best)) {
+				continue
+			}
+			if baseStore != nil && instrDominates(st, baseStore) {
+				continue // overwritten by the later whole-struct assignment
+			}
+			if instrDominates(at, st) {
+				// happens after `at`; it can only reach `at` again round a loop, where the variable must be
+				// re-initialised first
+				h1, _ := s.loopOf(st.Block())
 				h2, _ := s.loopOf(at.Block())
-				if h1 == h2 {
+				if h1 == nil || h1 != h2 || (baseStore != nil && func() bool { hb, _ := s.loopOf(baseStore.Block()); return hb == h2 }()) {
 					continue
 				}
 			}
-			set[fa.Field] = sUnknown("field assigned on some paths only")
-			continue
-		}
-		if st != nil {
-			if prev, dup := set[fa.Field]; dup && prev != nil {
-				// several FieldAddr values for one field: keep the later dominating one
+			if st.Block() != at.Block() && !reaches(st.Block(), at.Block()) {
+				continue
 			}
-			set[fa.Field] = s.val(st.Val)
+			unknown = true
+		}
+		switch {
+		case unknown:
+			set[field] = sUnknown("field assigned on some paths only")
+		case best != nil:
+			set[field] = s.val(best.Val)
 		}
 	}
 	if base != nil && len(set) == 0 {
@@ -819,7 +848,8 @@ func (s *symFn) call(c *ssa.Call) *Sym {
 		for _, a := range cc.Args {
 			args = append(args, s.val(a))
 		}
-		return &Sym{Op: "call", Name: "invoke:" + cc.Method.Name(), Kids: args, Kind: kindOf(c.Type())}
+		_, rk := namedTypeName(cc.Value.Type())
+		return &Sym{Op: "call", Name: "invoke:" + cc.Method.Name(), Kids: args, Kind: kindOf(c.Type()), RK: rk}
 	}
 	for _, a := range cc.Args {
 		// a pointer to a local struct: the callee sees the variable as it is at the call
@@ -859,13 +889,20 @@ func (s *symFn) call(c *ssa.Call) *Sym {
 		}
 	}
 	name := full
+	rk := ""
 	if s.p.IsOwnFunc(callee) {
 		name = s.p.FuncKey(callee)
 	} else if callee.Signature.Recv() != nil && isTreePkg(callee) {
 		// parse-tree / token accessors: named by method only (promoted wrappers and interface calls look alike)
 		name = "invoke:" + callee.Name()
+		_, rk = namedTypeName(callee.Signature.Recv().Type())
+		if len(cc.Args) > 0 {
+			if _, n := namedTypeName(cc.Args[0].Type()); n != "" {
+				rk = n
+			}
+		}
 	}
-	return &Sym{Op: "call", Name: name, Kids: args, Kind: kindOf(c.Type())}
+	return &Sym{Op: "call", Name: name, Kids: args, Kind: kindOf(c.Type()), RK: rk}
 }
 
 // returnSym: the function's result as one term (ite over the return paths); tuples for multiple results.
